@@ -563,3 +563,184 @@ def glue(msgs, workdir, char_id=None, runner=None, light=False):
     if r is not None and ok('query:md', r):
         _same(bad, 'query:md', 'query %n_subsets', r[0], '%s\n%s\n' % (files[0], MetadataQuerent(MetadataExprParser()).query(Decoder().process(refs[0], info_only=True), '%n_subsets')))
     return out
+
+
+# ---------------------------------------------------------------------------------------------
+# decode -m with --filter / --continue-on-error / --ignore-value-expectation (called from C11 and C12)
+FILTERS = ['${%n_subsets} > 1', '${%n_subsets} == 1', '${%is_compressed}', 'not ${%is_compressed}', '${%edition} == 4', '${%edition} < 4',
+           '${%data_category} == 2', '${%data_category} != 2', '${%length} > 150', 'True', 'False',
+           '${%n_subsets} > 1 and ${%edition} == 4']
+
+
+def _json_lines(messages):
+    from pybufrkit.renderer import FlatJsonRenderer
+    from pybufrkit.utils import JSON_DUMPS_KWARGS
+    return [json.dumps(FlatJsonRenderer().render(m), **JSON_DUMPS_KWARGS) for m in messages]
+
+
+def _selected(stream, expr):
+    """which messages of an undamaged stream the filter selects, each message judged on its own metadata"""
+    from pybufrkit.decoder import Decoder, generate_bufr_message
+    from pybufrkit.script import ScriptRunner
+    sr = ScriptRunner(expr, mode='eval')
+    return [bool(sr.run(m)) for m in generate_bufr_message(Decoder(), stream, info_only=True)]
+
+
+def _no_traceback(bad, stage, res, allow_stderr=None):
+    text, err, exc = res
+    if exc:
+        bad.append((stage, 'main() raised / exited: %s' % exc))
+        return False
+    if 'Traceback' in err or 'Traceback' in text:
+        bad.append((stage, 'traceback printed: %s' % (err or text)[-200:]))
+        return False
+    if err and (allow_stderr is None or not all(l.startswith(allow_stderr) for l in err.strip().split('\n'))):
+        bad.append((stage, 'unexpected text on stderr: %s' % err[:200]))
+        return False
+    return True
+
+
+def _msg_lines(text, st):
+    """the JSON lines of a `decode -m -j` output; anything else on stdout (main() sends the log to stdout: WARNING lines of the
+    table lookup are mixed into the output) is counted, not compared"""
+    lines = text.split('\n')
+    other = [l for l in lines if l and not l.startswith('[[')]
+    if other:
+        st['stdout-lines-that-are-not-messages'] = st.get('stdout-lines-that-are-not-messages', 0) + len(other)
+    return [l for l in lines if l.startswith('[[')]
+
+
+def glue_stream(msgs, workdir, parts=('filter', 'prepbufr', 'damaged'), filters=None):
+    """`msgs`: >= 3 messages (bytes, canonical re-encodes) of different metadata.  Everything through `main()` in-process.
+    filter:   `decode -m -j --filter E cat` prints exactly the messages E selects: = generate_bufr_message(filter_expr=E) called
+              directly = the lines of the unfiltered run at the positions where E holds of the message's own metadata;
+    prepbufr: the same on tests/data/prepbufr.bufr for filters that reject / accept its table definition messages (the definitions
+              of a rejected message still govern what follows: the data messages print as in the unfiltered run);
+    damaged:  `decode -m -j [--continue-on-error]` on good + damaged + good, `decode [--ignore-value-expectation]` on a message
+              with a wrong stop signature: the lines of the undamaged members, one notice per skipped member on stderr, no traceback.
+    -> {'problems': [...], 'stats': {...}}"""
+    out = {'problems': [], 'stats': {}}
+    keep_last = logging.lastResort
+    logging.lastResort = None       # the API calls made for comparison log table warnings: not to the check's output
+    try:
+        return _glue_stream(msgs, workdir, parts, filters, out)
+    finally:
+        logging.lastResort = keep_last
+
+
+def _glue_stream(msgs, workdir, parts, filters, out):
+    from pybufrkit.decoder import Decoder, generate_bufr_message
+    bad, st = out['problems'], out['stats']
+
+    def run(argv):
+        st['commands'] = st.get('commands', 0) + 1
+        return run_main(argv)
+
+    sep = b'\r\r\n'
+    stream = b'junk BUF' + sep.join(msgs) + b'7777'
+    cat = os.path.join(workdir, 'stream.bufr')
+    with open(cat, 'wb') as f:
+        f.write(stream)
+    plain = run(['decode', '-m', '-j', cat])
+    if not _no_traceback(bad, 'stream:plain', plain):
+        return out
+    lines = _msg_lines(plain[0], st)
+    want = _json_lines(generate_bufr_message(Decoder(), stream, file_path=cat, wire_template_data=False))
+    if lines != want or len(lines) != len(msgs):
+        bad.append(('stream:plain', 'decode -m -j prints %d messages, generate_bufr_message yields %d, the stream holds %d' % (len(lines), len(want), len(msgs))))
+        return out
+    if 'filter' in parts:
+        for expr in (filters or FILTERS):
+            r = run(['decode', '-m', '-j', '--filter', expr, cat])
+            if not _no_traceback(bad, 'filter', r):
+                continue
+            got = _msg_lines(r[0], st)
+            direct = _json_lines(generate_bufr_message(Decoder(), stream, filter_expr=expr, file_path=cat, wire_template_data=False))
+            sel = _selected(stream, expr)
+            by_meta = [l for l, s in zip(lines, sel) if s]
+            if got != direct:
+                bad.append(('filter', 'decode -m -j --filter %r prints %d messages, generate_bufr_message(filter_expr=..) yields %d' % (expr, len(got), len(direct))))
+            elif got != by_meta:
+                bad.append(('filter', 'decode -m -j --filter %r prints %d messages, the filter holds of %s of the %d messages of the unfiltered run (%s)' % (
+                    expr, len(got), sum(sel), len(sel), 'other messages' if len(got) == len(by_meta) else 'other count')))
+            st['filters'] = st.get('filters', 0) + 1
+            st['filter-selected'] = st.get('filter-selected', 0) + sum(sel)
+            st['filter-rejected'] = st.get('filter-rejected', 0) + len(sel) - sum(sel)
+    if 'prepbufr' in parts:
+        pb = os.path.join(core.REPO, 'tests', 'data', 'prepbufr.bufr')
+        if os.path.exists(pb):
+            raw = open(pb, 'rb').read()
+            r0 = run(['decode', '-m', '-j', pb])
+            if _no_traceback(bad, 'prepbufr:plain', r0):
+                l0 = _msg_lines(r0[0], st)
+                from pybufrkit.script import ScriptRunner
+                # the messages of the unfiltered full scan (what `decode -m` walks through) and their own metadata
+                full = list(generate_bufr_message(Decoder(), raw, file_path=pb, wire_template_data=False))
+                cats = [m.data_category.value for m in full]
+                if _json_lines(full) != l0:
+                    bad.append(('prepbufr:plain', 'decode -m -j prints %d messages, generate_bufr_message yields %d (or other content)' % (len(l0), len(full))))
+                else:
+                    for expr in ('${%data_category} != 11', '${%data_category} == 11', '${%n_subsets} > 0 and ${%data_category} != 11'):
+                        sr = ScriptRunner(expr, mode='eval')
+                        keep = [bool(sr.run(m)) for m in full]
+                        r = run(['decode', '-m', '-j', '--filter', expr, pb])
+                        if not _no_traceback(bad, 'prepbufr:filter', r):
+                            continue
+                        got = _msg_lines(r[0], st)
+                        direct = _json_lines(generate_bufr_message(Decoder(), raw, filter_expr=expr, file_path=pb, wire_template_data=False))
+                        by_meta = [l for l, s in zip(l0, keep) if s]
+                        if got != direct or got != by_meta:
+                            bad.append(('prepbufr:filter', 'decode -m -j --filter %r on prepbufr.bufr prints %d messages; generate_bufr_message yields %d; '
+                                                           'the unfiltered run has %d messages of which the filter selects %d (%s)' % (
+                                                               expr, len(got), len(direct), len(l0), len(by_meta),
+                                                               'same count, other content' if len(got) == len(by_meta) else 'other count')))
+                        st['prepbufr-filters'] = st.get('prepbufr-filters', 0) + 1
+                        st['prepbufr-definition-messages-rejected'] = st.get('prepbufr-definition-messages-rejected', 0) + sum(
+                            1 for c, s in zip(cats, keep) if c == 11 and not s)
+    if 'damaged' in parts:
+        victim = msgs[1]
+        damaged = victim[:-1] + b'8'                      # stop signature 7778
+        s2 = msgs[0] + sep + damaged + sep + msgs[2]
+        f2 = os.path.join(workdir, 'damaged.bufr')
+        with open(f2, 'wb') as f:
+            f.write(s2)
+        notice = 'Continuing on next message and ignoring error'
+        r = run(['decode', '-m', '-j', '--continue-on-error', f2])
+        if _no_traceback(bad, 'damaged:continue', r, allow_stderr=notice):
+            got = _msg_lines(r[0], st)
+            if got != [lines[0], lines[2]]:
+                bad.append(('damaged:continue', 'decode -m -j --continue-on-error on good+damaged+good prints %d messages, not the two undamaged ones' % len(got)))
+            if r[1].count(notice) != 1:
+                bad.append(('damaged:continue', '%d notices on stderr for one damaged member' % r[1].count(notice)))
+        r = run(['decode', '-m', '-j', f2])
+        text, err, exc = r
+        if exc or 'Traceback' in err or 'Traceback' in text:
+            bad.append(('damaged:stop', 'decode -m -j on a stream with a damaged member: %s %s' % (exc, err[-200:])))
+        else:
+            if _msg_lines(text, st) != [lines[0]]:
+                bad.append(('damaged:stop', 'without --continue-on-error the messages before the damaged one are printed and nothing else: %d lines' % len(_msg_lines(text, st))))
+            if not err.strip():
+                bad.append(('damaged:stop', 'the failure is not reported on stderr'))
+        # one message with a wrong stop signature: refused, accepted with --ignore-value-expectation and shown as it is
+        f3 = os.path.join(workdir, 'stop.bufr')
+        with open(f3, 'wb') as f:
+            f.write(damaged)
+        r = run(['decode', '-j', f3])
+        if r[2] or 'Traceback' in r[1] or r[0].strip() or not r[1].strip():
+            bad.append(('damaged:value-expectation', 'decode of a message with stop signature 7778: stdout %r, stderr %r, %s' % (r[0][:60], r[1][:120], r[2])))
+        r = run(['decode', '-j', '--ignore-value-expectation', f3])
+        if _no_traceback(bad, 'damaged:ignore-value-expectation', r):
+            try:
+                data = json.loads(r[0])
+                ref = json.loads(lines[1])
+                if data[-1] != ['7778'] or data[:-1] != ref[:-1]:
+                    bad.append(('damaged:ignore-value-expectation', 'decode --ignore-value-expectation: not the message with the stop signature as found (%r)' % (data[-1],)))
+            except ValueError as e:
+                bad.append(('damaged:ignore-value-expectation', 'output is not JSON: %s' % e))
+        r = run(['decode', '-m', '-j', '--ignore-value-expectation', f2])
+        if _no_traceback(bad, 'damaged:ignore-value-expectation-m', r):
+            got = _msg_lines(r[0], st)
+            if len(got) != 3 or got[0] != lines[0] or got[2] != lines[2]:
+                bad.append(('damaged:ignore-value-expectation-m', 'decode -m --ignore-value-expectation prints %d messages for 3' % len(got)))
+        st['damaged'] = st.get('damaged', 0) + 1
+    return out
